@@ -500,6 +500,15 @@ impl JoinPlanner {
             return ir;
         }
 
+        // A Union combines independent rule bodies: plan each branch on its own.
+        // Building one join graph across branches would merge scans of different
+        // clauses into a single join tree and drop the union.
+        if let IRNode::Union { inputs } = ir {
+            return IRNode::Union {
+                inputs: inputs.into_iter().map(|i| self.plan_joins(i)).collect(),
+            };
+        }
+
         // Only optimize if there are joins
         if !Self::has_joins(&ir) {
             return ir;
